@@ -30,8 +30,9 @@ def native_guard(pack, name, fn):
     except Exception as e:           # noqa
         tb = traceback.extract_tb(e.__traceback__)
         repo = os.environ.get('VERIF_REPO', '/repo')
-        inner = tb[-1].filename if tb else ''
-        if inner.startswith(repo) or '/andes/' in inner:
+        # raised from inside the repository code, or from a library function the repository code called
+        in_repo = [f for f in tb if f.filename.startswith(repo + '/') or '/andes/' in f.filename]
+        if in_repo:
             pack.violation(name, {'bounded': True, 'exception': repr(e), 'traceback': traceback.format_exc()[-1500:],
                                   'native_cmd': 'bounded native stand-in raised inside the repository code'})
             return None
